@@ -16,7 +16,10 @@ RULE = ("case 'rec' = (frame of 1..64 bytes with standard or extended id, 1..4 i
         "signed/unsigned/float, optional simple multiplexing; one of its signals; a probe payload). The matrix is written by the "
         "Scapy, Wireshark, FIBEX, CSV (three Motorola notations) and Canard-JSON writers; independent mini-parsers (regular "
         "expressions on the .py/.lua text, lxml on FIBEX, csv, json) extract the recorded numbers. case 'frame' = the frame-level "
-        "records (identifier, format, length) and the recorded scaling. Non-trivial = distinct case with a signal wider than one bit.")
+        "records (identifier, format, length) and the recorded scaling (Scapy scaling/offset, Canard factor/offset, FIBEX "
+        "COMPU-RATIONAL-COEFFS, the CSV factor column; factors and offsets with up to 12 significant digits). In 40 % of the cases the "
+        "matrix holds a second frame with signals of the same names at the same start bits (one bit wide, factor 7, value tables) and "
+        "signals of the frame under test carry value tables. Non-trivial = distinct case with a signal wider than one bit.")
 PARTIAL = ["the target tools are not installed: their reading conventions are the trusted Spec/Exports.lean",
            "FIBEX dynamic/static segment positions of multiplexed PDUs are not compared; compared are SIGNAL-INSTANCE and SWITCH "
            "position/byte order, CODING bit length and base data type (signedness), frame length and identifier",
@@ -39,7 +42,20 @@ def build(fd, arbid, ext):
         if len(d) > 10:
             s.factor = decimal.Decimal(d[10])
             s.offset = decimal.Decimal(d[11])
+        if len(d) > 12:
+            for k, v in d[12]:
+                s.add_values(k, v)
     fr.add_transmitter("E1")
+    if fd.get("decoy"):
+        # another frame of the matrix with signals of the same names at the same start bits, but one bit wide and scaled by 7:
+        # what is recorded for a frame is that frame's business
+        dec = F.mkframe({"size": fd["size"], "sigs": [F.sigdesc(d[0], d[1], 1, d[3]) for d in fd["sigs"] if not d[6]]}, name="Decoy",
+                        arbid=(arbid - 1 if (fd["decoy"] == "below" and arbid > 1) else arbid + 1 if arbid + 1 < (1 << (29 if ext else 11)) else arbid - 1), extended=ext)
+        for s in dec.signals:
+            s.factor = decimal.Decimal(7)
+            s.add_values(0, "a")
+            s.add_values(1, "b")
+        db.add_frame(dec)
     db.add_frame(fr)
     db.add_ecu(cm.Ecu("E1"))
     return db
@@ -63,13 +79,18 @@ def records(fd, arbid, ext):
         out["sig"][n] = {}
     # scapy
     txt = export(db, "scapy").decode()
-    for m in re.finditer(r'SignalField\("(\w+)", default=0, start=(\d+), size=(\d+), scaling=([^,]+), offset=([^,]+), unit="([^"]*)", fmt="(..)"\)', txt):
+    cls = txt[txt.find("class Fr(SignalPacket)"):]
+    cls = cls[:cls.find("\n\n")] if "\n\n" in cls else cls
+    for m in re.finditer(r'SignalField\("(\w+)", default=0, start=(\d+), size=(\d+), scaling=([^,]+), offset=([^,]+), unit="([^"]*)", fmt="(..)"\)', cls):
         out["sig"][m.group(1)]["scapy"] = [int(m.group(2)), int(m.group(3)), m.group(7)]
         out["sig"][m.group(1)]["scapy_scale"] = [m.group(4), m.group(5)]
     m = re.search(r"bind_layers\(SignalHeader, Fr, identifier  = (0x[0-9a-f]+)(, flags = \"extended\")?\)", txt)
     out["frame"]["scapy"] = [int(m.group(1), 16), m.group(2) is not None] if m else None
     # wireshark
     txt = export(db, "wireshark").decode()
+    b0 = txt.find("local my_frame_tree = framesubtree:add(Fr,")
+    b0 = txt.rfind("if can_id ==", 0, b0) if b0 >= 0 else -1
+    txt = txt[b0:txt.find("\n  end\n", b0)] if b0 >= 0 else ""
     m = re.search(r"if can_id == (\d+) then", txt)
     out["frame"]["ws"] = [int(m.group(1))] if m else None
     for n in names:
@@ -99,6 +120,12 @@ def records(fd, arbid, ext):
             bitlen[cid] = int(bl.text)
         ct = coding.find("{%s}CODED-TYPE" % ns["ho"])
         basetype[cid] = ct.get("{%s}BASE-DATA-TYPE" % ns["ho"]) if ct is not None else None
+    compu = {}
+    for coding in root.iter("{%s}CODING" % ns["fx"]):
+        num = coding.find(".//{%s}COMPU-NUMERATOR" % ns["ho"])
+        den = coding.find(".//{%s}COMPU-DENOMINATOR" % ns["ho"])
+        if num is not None:
+            compu[coding.get("ID")] = [[v.text for v in num], [v.text for v in den] if den is not None else ["1"]]
     sig2coding = {}
     for sg in root.iter("{%s}SIGNAL" % ns["fx"]):
         ref = sg.find("{%s}CODING-REF" % ns["fx"])
@@ -106,12 +133,16 @@ def records(fd, arbid, ext):
             sig2coding[sg.get("ID")] = ref.get("ID-REF")
     for inst in root.iter("{%s}SIGNAL-INSTANCE" % ns["fx"]):
         ref = inst.find("{%s}SIGNAL-REF" % ns["fx"]).get("ID-REF")
-        n = ref.split(".", 1)[1].split("_")[0] if False else ref[len("SIG_Fr."):]
+        if not ref.startswith("SIG_Fr."):
+            continue
+        n = ref[len("SIG_Fr."):]
         n = re.sub(r"_\d+$", "", n) if n not in out["sig"] else n
         pos = int(inst.find("{%s}BIT-POSITION" % ns["fx"]).text)
         hl = inst.find("{%s}IS-HIGH-LOW-BYTE-ORDER" % ns["fx"]).text == "true"
         if n in out["sig"]:
             out["sig"][n]["fibex"] = [pos, hl, bitlen.get(sig2coding.get(ref)), basetype.get(sig2coding.get(ref))]
+            if sig2coding.get(ref) in compu:
+                out["sig"][n]["fibex_scale"] = compu[sig2coding.get(ref)]
     for sw in root.iter("{%s}SWITCH" % ns["fx"]):
         n = sw.find("{%s}SHORT-NAME" % ns["ho"]).text
         if n in out["sig"]:
@@ -119,8 +150,12 @@ def records(fd, arbid, ext):
             out["sig"][n]["fibex"] = [int(sw.find("{%s}BIT-POSITION" % ns["fx"]).text),
                                       sw.find("{%s}IS-HIGH-LOW-BYTE-ORDER" % ns["fx"]).text == "true",
                                       int(sw.find("{%s}BIT-LENGTH" % ns["ho"]).text), basetype.get(cid)]
-    idv = root.find(".//{%s}IDENTIFIER-VALUE" % ns["fx"])
-    fl = [f for f in root.iter("{%s}FRAME" % ns["fx"])]
+    idv = None
+    for ft in root.iter("{%s}FRAME-TRIGGERING" % ns["fx"]):
+        fref = ft.find("{%s}FRAME-REF" % ns["fx"])
+        if fref is not None and fref.get("ID-REF") == "FRAME_Fr":
+            idv = ft.find(".//{%s}IDENTIFIER-VALUE" % ns["fx"])
+    fl = [f for f in root.iter("{%s}FRAME" % ns["fx"]) if f.get("ID") == "FRAME_Fr"]
     out["frame"]["fibex"] = [int(idv.text) if idv is not None else None,
                              int(fl[0].find("{%s}BYTE-LENGTH" % ns["fx"]).text) if fl else None]
     # csv in three notations
@@ -129,15 +164,16 @@ def records(fd, arbid, ext):
     for fmt in ("msb", "msbreverse", "lsb"):
         rows = list(pycsv.reader(io.StringIO(export(db, "csv", xlsMotorolaBitFormat=fmt).decode("utf-8"))))
         for r in rows[1:]:
-            if r[7] in out["sig"]:
+            if r[1] == "Fr" and r[7] in out["sig"]:
                 out["sig"][r[7]]["csv"][fmt] = [int(r[5]), int(r[6]), r[12], r[13]]
                 out["sig"][r[7]]["csv_len"] = int(r[9])
+                out["sig"][r[7]]["csv_factor"] = r[16]
                 out["frame"]["csv"] = [r[0].strip()]
     # canard json
     # (the Canard key is the position of the least significant bit whatever the Motorola notation option of the other JSON flavours says)
     for fmt in ("lsb", "msb", "msbreverse"):
         js = json.loads(export(db, "json", jsonExportCanard=True, jsonMotorolaBitFormat=fmt).decode())
-        msg = js["messages"][0]
+        msg = [x for x in js["messages"] if x["name"] == "Fr"][0]
         out["frame"]["canard"] = [msg["id"]]
         for k, v in msg["signals"].items():
             if v["name"] in out["sig"]:
@@ -157,7 +193,8 @@ def gen_frame(rng):
     sigs = []
     for k in range(rng.randint(1, 4)):
         d = F.rand_sig(rng, "s%d" % k, n, allow_float=True)
-        d += [rng.choice(["1", "0.5", "0.125", "2", "10", "0.01"]), rng.choice(["0", "-40", "1.5", "100"])]
+        d += [rng.choice(["1", "0.5", "0.125", "2", "10", "0.01", "0.0009765625", "0.123456789012", "1E-7", "1234.5678"]),
+              rng.choice(["0", "-40", "1.5", "100", "-1234567.5", "0.000123456789"])]
         sigs.append(d)
     fd = {"size": n, "sigs": sigs}
     if rng.random() < 0.25:
@@ -177,6 +214,12 @@ def gen_frame(rng):
             seen.add(lsb)
             keep.append(d)
     fd["sigs"] = keep
+    if rng.random() < 0.4:
+        fd["decoy"] = rng.choice(["below", "above"])
+    if rng.random() < 0.4:
+        for d in fd["sigs"]:
+            if not d[5] and not d[6] and rng.random() < 0.7:
+                d.append([[0, "x"], [1, "y"]])
     return fd
 
 
@@ -209,6 +252,7 @@ def observe(case):
         rec = records(fd, c["id"], c["ext"])
         # scaling recorded by scapy / canard equals the matrix's, numerically
         scale_ok = True
+        why = []
         for d in fd["sigs"]:
             r = rec["sig"][d[0]]
             for key in ("scapy_scale", "canard_scale"):
@@ -216,13 +260,35 @@ def observe(case):
                     scale_ok = scale_ok and decimal.Decimal(str(r[key][0])) == decimal.Decimal(d[10]) and decimal.Decimal(str(r[key][1])) == decimal.Decimal(d[11])
             if "csv_len" in r:
                 scale_ok = scale_ok and r["csv_len"] == d[2]
-        return {"frame": rec["frame"], "scale_ok": scale_ok}
+            if "fibex_scale" in r:
+                # phys = (offset + factor * raw) / denominator
+                nums, dens = r["fibex_scale"]
+                try:
+                    den = decimal.Decimal(dens[0])
+                    ok = len(nums) == 2 and decimal.Decimal(nums[0]) / den == decimal.Decimal(d[11]) and decimal.Decimal(nums[1]) / den == decimal.Decimal(d[10])
+                except (decimal.InvalidOperation, ZeroDivisionError):
+                    ok = False
+                if not ok:
+                    scale_ok = False
+                    why.append("FIBEX COMPU-RATIONAL-COEFFS of %s record %s / %s, the signal has factor %s and offset %s" % (d[0], nums, dens, d[10], d[11]))
+            if "csv_factor" in r:
+                # column 'Function / Increment Unit': "<factor>  <unit>" or "<factor> -", or only the unit when the factor is 1
+                text = r["csv_factor"].strip()
+                first = text.split(" ")[0] if text else ""
+                try:
+                    rec_factor = decimal.Decimal(first)
+                except decimal.InvalidOperation:
+                    rec_factor = decimal.Decimal(1)
+                if rec_factor != decimal.Decimal(d[10]):
+                    scale_ok = False
+                    why.append("CSV records the factor %r of %s, the signal has %s" % (text, d[0], d[10]))
+        return {"frame": rec["frame"], "scale_ok": scale_ok, "why": why[:3]}
     rec = records(c["f"], c["id"], c["ext"])["sig"][c["sig"][0]]
     return {k: rec.get(k) for k in ("scapy", "fibex", "canard", "csv", "ws")}
 
 
 def project(impl):
-    return impl
+    return {k: v for k, v in impl.items() if k != "why"}
 
 
 def features(case, impl):
